@@ -260,6 +260,8 @@ type propInfo struct {
 	QuickRuns, ThoroughRuns int
 	Real, Stub, Assumptions []string
 	BudgetIsViolation       bool
+	RaceMode                bool
+	RaceCompanion           string
 }
 
 type failure struct {
@@ -327,6 +329,9 @@ type batch struct {
 	from  int
 	to    int
 	avoid string
+	prop  string // property the workers run (the check's own, or its race-mode companion)
+	bin   string
+	race  bool
 }
 
 type agg struct {
@@ -398,11 +403,19 @@ func slug(s string) string {
 
 var workerProcs = "2"
 
-func runWorker(bin string, tmp string, idx int, args []string, timeout time.Duration) (*workerOut, error) {
+func raceEnv(tmp string) []string {
+	return []string{"GORACE=halt_on_error=0 log_path=" + filepath.Join(tmp, "tsan")}
+}
+
+func runWorker(bin string, tmp string, idx int, args []string, timeout time.Duration, race ...bool) (*workerOut, error) {
+	workerEnv := []string(nil)
+	if len(race) > 0 && race[0] {
+		workerEnv = raceEnv(tmp)
+	}
 	out := filepath.Join(tmp, fmt.Sprintf("w%d.json", idx))
 	full := append([]string{"-test.run", "^TestSim$", "-test.timeout", "0", "-out", out}, args...)
 	cmd := exec.Command(bin, full...)
-	cmd.Env = append(os.Environ(), "GOMAXPROCS="+workerProcs, "GODEBUG=asynctimerchan=0")
+	cmd.Env = append(append(os.Environ(), "GOMAXPROCS="+workerProcs, "GODEBUG=asynctimerchan=0"), workerEnv...)
 	var buf bytes.Buffer
 	cmd.Stdout = &buf
 	cmd.Stderr = &buf
@@ -413,7 +426,9 @@ func runWorker(bin string, tmp string, idx int, args []string, timeout time.Dura
 	go func() { done <- cmd.Wait() }()
 	select {
 	case err := <-done:
-		if err != nil {
+		if _, serr := os.Stat(out); err != nil && (serr != nil || len(workerEnv) == 0) {
+			// (a -race binary marks the test failed on any report, also on ignored ones
+			// about the harness; its result file is what counts)
 			return nil, fmt.Errorf("worker failed: %v\n%s", err, lastLines(buf.String(), 60))
 		}
 	case <-time.After(timeout):
@@ -559,13 +574,31 @@ func cmdCheck(args []string) {
 	}
 	// batches: main (with avoid switches of known findings) and, when there are
 	// known findings, a dedicated batch without them.
-	batches := []batch{{name: "main", from: 0, to: total, avoid: avoid}}
+	batches := []batch{{name: "main", from: 0, to: total, avoid: avoid, prop: id, bin: bin, race: race}}
 	if avoid != "" {
 		n := total / 8
 		if n < 200 {
 			n = 200
 		}
-		batches = append(batches, batch{name: "known-findings", from: 1 << 24, to: 1<<24 + n, avoid: ""})
+		batches = append(batches, batch{name: "known-findings", from: 1 << 24, to: 1<<24 + n, avoid: "", prop: id, bin: bin, race: race})
+	}
+	// race-mode companion (the "no data race" clause): same workloads in a -race binary
+	raceBin := ""
+	if p.RaceCompanion != "" && runsOverride == 0 {
+		raceBin = buildHarness(true)
+		if cp, ok := listProps(raceBin, tmp)[p.RaceCompanion]; ok {
+			n := cp.QuickRuns
+			if tier == "thorough" {
+				n = cp.ThoroughRuns
+			}
+			batches = append(batches, batch{name: "race", from: 1 << 25, to: 1<<25 + n, avoid: avoid, prop: p.RaceCompanion, bin: raceBin, race: true})
+		}
+	}
+	binFor := func(class string) (string, string, bool) {
+		if p.RaceCompanion != "" && strings.HasPrefix(class, p.RaceCompanion+"/") {
+			return raceBin, p.RaceCompanion, true
+		}
+		return bin, id, race
 	}
 	type job struct {
 		b        batch
@@ -615,9 +648,9 @@ func cmdCheck(args []string) {
 					continue
 				}
 				remain := time.Until(deadline)
-				wa := []string{"-prop", id, "-tier", tier, "-seed", strconv.FormatUint(seed, 10), "-from", strconv.Itoa(j.from), "-to", strconv.Itoa(j.to),
+				wa := []string{"-prop", j.b.prop, "-tier", tier, "-seed", strconv.FormatUint(seed, 10), "-from", strconv.Itoa(j.from), "-to", strconv.Itoa(j.to),
 					"-budget-ms", strconv.Itoa(int(remain / time.Millisecond)), "-avoid", j.b.avoid}
-				wo, err := runWorker(bin, tmp, ji, wa, remain+3*time.Minute)
+				wo, err := runWorker(j.b.bin, tmp, ji, wa, remain+3*time.Minute, j.b.race)
 				mu.Lock()
 				if err != nil {
 					if werr == nil {
@@ -680,10 +713,11 @@ func cmdCheck(args []string) {
 		ff := filepath.Join(tmp, "fail-"+slug(c)+".json")
 		os.WriteFile(ff, raw, 0o644)
 		final := ff
-		if minimised < 3 {
+		cbin, cprop, crace := binFor(c)
+		if minimised < 3 && !strings.Contains(c, "/data-race:") { // the race detector reports a racing pair once per process: no in-process minimisation
 			minimised++
 			mf := filepath.Join(tmp, "min-"+slug(c)+".json")
-			cmd := exec.Command(bin, "-test.run", "^TestSim$", "-test.timeout", "0", "-prop", id, "-minimize", ff, "-out", mf, "-budget-ms", "40000")
+			cmd := exec.Command(cbin, "-test.run", "^TestSim$", "-test.timeout", "0", "-prop", cprop, "-minimize", ff, "-out", mf, "-budget-ms", "40000")
 			cmd.Env = append(os.Environ(), "GOMAXPROCS=2", "GODEBUG=asynctimerchan=0")
 			if out, err := cmd.CombinedOutput(); err != nil {
 				fmt.Printf("vdriver: minimiser failed for %s: %v\n%s\n", c, err, lastLines(string(out), 20))
@@ -695,7 +729,7 @@ func cmdCheck(args []string) {
 		ok := true
 		var hashes []string
 		for rep := 0; rep < 2; rep++ {
-			cls, lh, err := replayFile(bin, tmp, id, final)
+			cls, lh, err := replayFile(cbin, tmp, cprop, final, crace)
 			if err != nil || cls != c {
 				ok = false
 				fmt.Printf("vdriver: replay of %s gave class %q (want %q) err=%v\n", final, cls, c, err)
@@ -740,12 +774,19 @@ func matchKnown(l []knownFinding, class string) *knownFinding {
 	return nil
 }
 
-func replayFile(bin, tmp, id, file string) (class, logHash string, err error) {
+func replayFile(bin, tmp, id, file string, race ...bool) (class, logHash string, err error) {
 	out := filepath.Join(tmp, "replay-out.json")
+	os.Remove(out)
 	cmd := exec.Command(bin, "-test.run", "^TestSim$", "-test.timeout", "10m", "-prop", id, "-replay", file, "-out", out)
 	cmd.Env = append(os.Environ(), "GOMAXPROCS=2", "GODEBUG=asynctimerchan=0")
+	isRace := len(race) > 0 && race[0]
+	if isRace {
+		cmd.Env = append(cmd.Env, raceEnv(tmp)...)
+	}
 	if b, e := cmd.CombinedOutput(); e != nil {
-		return "", "", fmt.Errorf("%v: %s", e, lastLines(string(b), 20))
+		if _, serr := os.Stat(out); !isRace || serr != nil {
+			return "", "", fmt.Errorf("%v: %s", e, lastLines(string(b), 20))
+		}
 	}
 	b, e := os.ReadFile(out)
 	if e != nil {
@@ -770,11 +811,17 @@ func doReplay(bin, tmp, id, file string) int {
 	if err := json.Unmarshal(b, &f); err != nil {
 		die(2, "replay file: %v", err)
 	}
-	cls, lh, err := replayFile(bin, tmp, id, file)
+	isRace := false
+	if f.Property != "" && f.Property != id {
+		// a replay file of the check's race-mode companion
+		bin, id, isRace = buildHarness(true), f.Property, true
+	}
+	cls, lh, err := replayFile(bin, tmp, id, file, isRace)
 	if err != nil {
 		fmt.Println("vdriver: replay failed:", err)
 		return 2
 	}
+	id = f.Property[:3]
 	fmt.Printf("replay: class=%q log_hash=%s (recorded class=%q log_hash=%s)\n", cls, lh, f.Class, f.LogHash)
 	if cls == "" {
 		fmt.Println("replay: the violation does not occur on this tree")
